@@ -494,14 +494,30 @@ func witnessCase() seqCase {
 	}, Steps: []seqStep{{Op: "admit", Job: &j}}}
 }
 
+// mixedWitnessCase: one job with a single-device gpu-memory task (invisible to
+// the job-level gate) followed by a 2-GPU task (of which the node-level gate
+// checks one device) in a queue whose GPU limit is 2: ends at 2.5.
+func mixedWitnessCase() seqCase {
+	j := jspec{Name: "m", Queue: "leaf", Preemptible: true, Tasks: []tspec{
+		{Name: "m-t0", Kind: kGpuMem, GpuMem: 50, NodeMem: 100}, {Name: "m-t1", Kind: kWhole, N: 2, NodeMem: 100}}}
+	return seqCase{Queues: []qspec{
+		{Name: "leaf", Parent: "", Lim: [3]float64{-1, -1, 2}, Des: [3]float64{-1, -1, -1}},
+	}, Steps: []seqStep{{Op: "admit", Job: &j}}}
+}
+
 var _ = api.SchedulableResult{}
 
 // Run generates n cases from seed and writes them under dir.
 func Run(dir string, seed uint64, n int, tier string) error {
+	if tier == "e2e" {
+		return RunE2E()
+	}
 	if tier == "witness" {
-		term, label, trace, counts := runSeq(witnessCase())
-		fmt.Println(label)
-		fmt.Printf("trace: %+v\ncounts: %v\n%s\n", trace, counts, term)
+		for _, c := range []seqCase{mixedWitnessCase(), witnessCase()} {
+			term, label, trace, counts := runSeq(c)
+			fmt.Println(label)
+			fmt.Printf("trace: %+v\ncounts: %v\n%s\n", trace, counts, term)
+		}
 		return nil
 	}
 	out := u.NewOut(dir, "C08", "KaiV.Run.C08", "case", 50)
